@@ -194,6 +194,9 @@ def main() -> int:
         rp = json.load(open(replay))
         jobs = [(rp["id"], rp["h"])]
     else:
+        rdir = os.path.join(E.REPLAYS, PID)          # witnesses of this run only (file names are content hashes)
+        for fn in os.listdir(rdir) if os.path.isdir(rdir) else []:
+            os.remove(os.path.join(rdir, fn))
         with cf.ThreadPoolExecutor(len(cfgs)) as ex:
             res = list(ex.map(lambda c: explore(work, *c), cfgs))
         for (name, alpha, na, nr), (leaves, dsg, counts, ntab, r) in zip(cfgs, res):
@@ -208,7 +211,7 @@ def main() -> int:
             for i, h in enumerate(leaves):
                 jobs.append(("%s:%d" % (name, i), h))
                 # the value sweep is also run on the library's own default template (a populated core.xml)
-                if name == "values" and h[0]["kind"] == "empty":
+                if name == "values" and h[0]["kind"] == "empty" and not (h[1]["op"] == "LoadLexical" and h[1]["p"] != "created"):
                     jobs.append(("%s:%d:tpl" % (name, i), [{"op": "init", "kind": "template"}] + h[1:]))
             per_cfg[name] = {"alphabet": alpha, "assignments": na, "reopens": nr, "histories": r.distinct, "leaf_histories": len(leaves),
                              "scenarios": len(jobs) - n0, "tlc_generated": r.generated, "tlc_wall_s": round(r.wall, 1), "lexical_forms": ntab}
@@ -235,7 +238,12 @@ def main() -> int:
     byid = {j[0]: j for j in jobs}
     trid = {t["id"]: t for t in traces}
     observed, nbadsteps = {}, 0
-    for v in sorted(bad, key=lambda v: len(byid[v["id"]][1])):
+    korder = {"empty": 0, "absent": 1, "template": 2}
+
+    def wkey(v):          # deterministic witnesses: shortest history, plainest package, enumeration order
+        h, parts = byid[v["id"]][1], v["id"].split(":")
+        return (len(h), korder.get(h[0]["kind"], 3), parts[0], int(parts[1]) if len(parts) > 1 and parts[1].isdigit() else 0)
+    for v in sorted(bad, key=wkey):
         h = byid[v["id"]][1]
         tr = trid[v["id"]]
         for b in sorted(v["bad"], key=lambda b: b["k"]):
@@ -249,10 +257,16 @@ def main() -> int:
                     continue
                 shown = dict(a)
                 if a["op"] == "LoadLexical":
-                    shown["text"] = C.render_lex(a["v"])
+                    shown = {"op": a["op"], "p": a["p"], "text": C.render_lex(a["v"])}
+                elif a["op"] == "SetDate" and a["kind"] == "datetime":
+                    shown = {"op": a["op"], "p": a["p"], "value": C.datetok(a["v"]).isoformat()}
+                obs = tr["steps"][k - 1] if b["at"] == "step" else {}
+                got = {"out": obs.get("out"), "read": [[x["p"], x["v"]["r"] if x["v"]["r"]["has"] else None] for x in obs.get("d", {}).get("date", [])]
+                       + [["revision", x["r"]] for x in obs.get("d", {}).get("rev", [])], "xsd": obs.get("d", {}).get("xsd")}
                 rep.reject(sg, {"module": "CoreProps", "id": v["id"], "h": h[:k + 1], "failing": b,
                                 "observed": tr["steps"][k - 1] if b["at"] == "step" else inits[tr["kind"]]},
-                           "%s after %s" % (json.dumps(shown, sort_keys=True)[:300], json.dumps([x.get("kind", x["op"]) if x["op"] == "init" else x["op"] for x in h[:k]])))
+                           "%s after %s observed %s" % (json.dumps(shown, sort_keys=True)[:300],
+                                                        json.dumps([x.get("kind", x["op"]) if x["op"] == "init" else x["op"] for x in h[:k]]), json.dumps(got)[:300]))
     if do_selftest:
         selftest(traces, inits, {v["id"] for v in bad}, work)
     if tot.get("drift"):
